@@ -25,6 +25,7 @@ type getterCall struct {
 	B       uint64 `json:"b,omitempty"` // to
 	Trusted uint64 `json:"trusted,omitempty"`
 	At      int64  `json:"at_ms"`
+	EndAt   int64  `json:"end_ms"`
 	Ret     int    `json:"ret,omitempty"` // number of headers returned
 	Err     string `json:"err,omitempty"`
 }
@@ -51,6 +52,9 @@ type simGetter struct {
 	byHeightSeen int
 	ForgedAt     uint64 // GetByHeight returns a forged header at this height
 	ExpiredHdr   *vh.Header
+	// MaxByHeight, if > 0, is a circuit breaker: GetByHeight calls beyond it fail, so that a search that
+	// does not terminate is cut off (and then judged by its request count) instead of spinning forever.
+	MaxByHeight int
 	// Park, if set, is called at the start of every call (yield point for the scheduler).
 	Park func(point string)
 }
@@ -76,6 +80,7 @@ func (g *simGetter) enter(c getterCall) int {
 func (g *simGetter) leave(i, ret int, err error) {
 	g.mu.Lock()
 	g.outstanding--
+	g.calls[i].EndAt = time.Since(g.t0).Milliseconds()
 	g.calls[i].Ret = ret
 	if err != nil {
 		g.calls[i].Err = err.Error()
@@ -212,6 +217,9 @@ func (g *simGetter) GetByHeight(ctx context.Context, height uint64) (h *vh.Heade
 	if failAt >= 0 && seen == failAt {
 		return nil, errSimGetter
 	}
+	if g.MaxByHeight > 0 && seen >= g.MaxByHeight {
+		return nil, errors.New("simgetter: request budget exhausted")
+	}
 	if height == 0 || height > tip {
 		return nil, header.ErrNotFound
 	}
@@ -279,7 +287,32 @@ func (f *fakeSub) deliver(ctx context.Context, h *vh.Header) error {
 	return v(ctx, h)
 }
 
+// slowAppendStore is the real store with an Append that can be made to take virtual time, which
+// opens the window between "a header is being written" and "it is written" for other goroutines.
+type slowAppendStore struct {
+	*store.Store[*vh.Header]
+	mu    sync.Mutex
+	delay time.Duration
+}
+
+func (s *slowAppendStore) setDelay(d time.Duration) {
+	s.mu.Lock()
+	s.delay = d
+	s.mu.Unlock()
+}
+
+func (s *slowAppendStore) Append(ctx context.Context, hs ...*vh.Header) error {
+	s.mu.Lock()
+	d := s.delay
+	s.mu.Unlock()
+	if d > 0 {
+		time.Sleep(d)
+	}
+	return s.Store.Append(ctx, hs...)
+}
+
 type syncEnv struct {
+	slow   *slowAppendStore
 	chain  *vh.Chain
 	delta  time.Duration
 	tip0   uint64
@@ -315,7 +348,10 @@ func newSyncEnv(chain *vh.Chain, tip0 uint64, delta time.Duration, storeOpts []s
 
 // startSyncer creates a fresh Syncer over the environment's store and starts it.
 func (e *syncEnv) startSyncer(ctx context.Context) error {
-	s, err := hsync.NewSyncer[*vh.Header](e.getter, e.st, e.sub, e.opts...)
+	if e.slow == nil {
+		e.slow = &slowAppendStore{Store: e.st}
+	}
+	s, err := hsync.NewSyncer[*vh.Header](e.getter, e.slow, e.sub, e.opts...)
 	if err != nil {
 		return err
 	}
